@@ -1233,6 +1233,15 @@ def run_rep_slots(chk, F):
     chk.expect_count('E2-rep-slot', 'functions filling repToColumn_ slots', n, 4)
 
 
+def _conjuncts(c):
+    c = ir.skipcasts(c)
+    while c is not None and c.get('k') == 'ParenExpr':
+        c = ir.skipcasts(c['c'][0])
+    if c is not None and c.get('k') == 'BinaryOperator' and c.get('op') == '&&':
+        return _conjuncts(c['c'][0]) | _conjuncts(c['c'][1])
+    return {ir.show(c)} if c is not None else set()
+
+
 def run_lazy_discipline(chk, F):
     """R3b: Vector_column deletes lazily: every loop that walks column_ must look the current row up in
     erasedValues_ (directly or through a local helper), unless erasedValues_ is known empty on that path or the
@@ -1329,6 +1338,43 @@ def run_lazy_discipline(chk, F):
                    key='E2g|Vector_column::%s|lazy-source-loop|%d' % (f['name'], li))
             li += 1
     chk.expect_count('E2g-lazy-discipline', 'loops over a generic source range in Vector_column', m, 3)
+
+    # the physically last entry is the last entry of the column only when it was not erased lazily: a read of
+    # `column_.back()->get_row_index() / get_element()` is the key of a lookup in erasedValues_, lies in the arm where
+    # erasedValues_ is empty, or follows the loop that pops the erased entries off the end
+    e = 0
+    for f in fns:
+        if f.get('body') is None:
+            continue
+        par = ir.parents(f['body'])
+        pops = [lp.get('l') for lp in ir.walk(f['body']) if lp.get('k') in ('WhileStmt', 'ForStmt', 'DoStmt') and
+                'erasedValues_' in _all_text(lp.get('cond')) and 'pop_back' in _all_text(lp.get('body'))]
+        for x in ir.walk(f['body']):
+            if not (ir.is_call(x) and ir.call_name(x) in ('get_row_index', 'get_element')):
+                continue
+            r = ir.call_receiver(x)
+            if r is None or ir.show(r).replace(' ', '') not in ('column_.back()', '(*column_.rbegin())'):
+                continue
+            e += 1
+            ok = False
+            cur = x
+            while id(cur) in par and not ok:
+                up = par[id(cur)]
+                if ir.is_call(up) and ir.call_name(up) in ('find', 'count') and ir.call_receiver(up) is not None and \
+                        ir.show(ir.call_receiver(up)) == 'erasedValues_':
+                    ok = True
+                if up.get('k') == 'IfStmt' and 'erasedValues_.empty()' in _conjuncts(up.get('cond')) and \
+                        (cur is up.get('then') or ir.contains(up.get('then'), lambda y: y is x)):
+                    ok = True
+                cur = up
+            if not ok and any(l is not None and x.get('l') is not None and l < x.get('l') for l in pops):
+                ok = True
+            chk.ob('E2g-lazy-discipline', 'Vector_column::%s: the last stored entry is read at line %s as the last entry '
+                   'of the column only when it is not erased' % (f['name'], x.get('l')),
+                   '%s:%s' % (rel(f['file']), x.get('l')), ok,
+                   '' if ok else '`%s` is used although the last stored entry can be one zeroed with clear(row)'
+                   % ir.show(x)[:60], key='E2g|Vector_column::%s|lazy-back' % f['name'])
+    chk.expect_count('E2g-lazy-discipline', 'reads of the last stored entry in Vector_column', e, 4)
 
     # erasedValues_ taken over from another column goes with all the stored entries of that column: the same function
     # copies the entries of that column without skipping the erased ones (or moves / swaps the container)
